@@ -439,7 +439,28 @@ pub fn gen_random(rng: &mut Rng, max_depth: usize) -> Case {
     }
     // now and then a long program: hundreds of operations logged in one layer
     let n = if rng.chance(1, 60) { rng.range(130, 220) as usize } else { rng.range(1, 30) as usize };
-    let ops = gen_ops(rng, max_depth - 1, &mut counter, n, &keys);
+    let mut ops = gen_ops(rng, max_depth - 1, &mut counter, n, &keys);
+    // now and then a tower: dozens of caches nested in one another (a sub-message chain as deep as contracts can make
+    // it), each writing and removing a little before and after its child
+    if rng.chance(1, 400) {
+        let height = rng.range(20, 48) as usize;
+        let mut inner: Vec<Op> = vec![];
+        for lvl in 0..height {
+            let mut here = vec![];
+            for _ in 0..rng.range(0, 3) {
+                counter += 1;
+                let k = rng.pick(&keys).clone();
+                here.push(if rng.chance(2, 3) { Op::Set(hex(&k), hex(format!("t{}", counter).as_bytes())) } else { Op::Remove(hex(&k)) });
+            }
+            here.push(Op::Child { helper: rng.chance(1, 3), ops: inner, commit: lvl % 7 != 3 || rng.chance(1, 2) });
+            if rng.chance(1, 2) {
+                let k = rng.pick(&keys).clone();
+                here.push(Op::Remove(hex(&k)));
+            }
+            inner = here;
+        }
+        ops.extend(inner);
+    }
     // universe: working set, neighbours (prefix, extension) and a few random keys
     let mut uni: Vec<Vec<u8>> = keys.clone();
     for k in &keys {
